@@ -1,6 +1,5 @@
 from __future__ import annotations
 
-from dataclasses import is_dataclass
 import inspect
 import warnings
 from abc import ABC
@@ -374,28 +373,25 @@ class Grammar:
                 considered_subtypes.append(k)
                 new_symbols.append(k)
 
+        def add_type(k):
+            if is_metahandler(k) or is_generic_list(k):
+                add_type(get_generic_parameter(k))
+            elif is_generic(k):
+                for v in get_generic_parameters(k):
+                    add_type(v)
+            else:
+                add(k)
+
         while new_symbols:
             c = new_symbols.pop(0)
             if c in self.alternatives:
                 for k in self.alternatives[c]:
                     add(k)
-            elif is_dataclass(c):
-                for _, k in get_arguments(c):
-                    if is_metahandler(k):
-                        k = get_generic_parameter(k)
-                        add(k)
-                    elif is_generic_list(k):
-                        k = get_generic_parameter(k)
-                        add(k)
-                    elif is_generic(k):
-                        for v in get_generic_parameters(k):
-                            add(v)
-                    else:
-                        add(k)
             elif c in [bool, int, str, float, list, tuple]:
                 pass
             else:
-                assert False
+                for _, k in get_arguments(c):
+                    add_type(k)
 
         return extract_grammar(considered_subtypes, self.starting_symbol)
 
